@@ -429,7 +429,11 @@ class _FakeSubprocess(object):
 
     def produce(self, command):
         if self.mode == "pdf":
-            _, tex, out = command
+            if command[0] == "pdflatex":       # the default command of LaTeXToPDF
+                tex = command[-1]
+                out = tex.replace(".tex", ".pdf")
+            else:
+                _, tex, out = command
             content = "CONV:pdf:" + _canon_str(tex, self.root)
         else:
             # ["pdftoppm", pdf_name, data, "-png", "-singlefile"]
@@ -500,6 +504,17 @@ class _YieldRaise(object):
         raise Inner2()
 
 
+class _DupEven(object):
+    """two results for an even integer, one for everything else (members of a group get different numbers)"""
+    def run(self, flow):
+        import lena.flow
+        for v in flow:
+            d = lena.flow.get_data(v)
+            yield v
+            if isinstance(d, int) and not isinstance(d, bool) and d % 2 == 0:
+                yield v
+
+
 class _Last(object):
     def run(self, flow):
         import lena.flow
@@ -541,6 +556,7 @@ def _make_inner(spec, root):
                                  existing_unchanged=w["eu"], overwrite=w["ow"])
     return {"id": _Id, "dup": _Dup, "drop": _Drop, "number": _Number, "first": lambda: lena.flow.Slice(1),
             "count": _Count, "raise": _Raise, "yieldraise": _YieldRaise, "last": _Last, "dupfirst": _DupFirst,
+            "dupeven": _DupEven,
             "ctx": _WithCtx}[spec]()
 
 
@@ -586,14 +602,16 @@ def make_element(el, root, tdir, clock):
     k = el["k"]
     nothing = lambda: None
     if k == "tocsv":
-        return lena.output.ToCSV(), nothing
+        return lena.output.ToCSV(separator=el.get("sep", ","), header="x,y" if el.get("header") else None,
+                                 duplicate_last_bin=el.get("dup", True)), nothing
     if k == "write":
-        return lena.output.Write(_subst(el["outdir"], root), el["defname"], verbose=False,
+        return lena.output.Write(_subst(el["outdir"], root), el["defname"], verbose=bool(el.get("verbose")),
                                  existing_unchanged=el["eu"], overwrite=el["ow"]), nothing
     if k == "render":
         sel = el.get("sel")
         sd = None if sel is None else lena.flow.Selector(_make_selector(sel))
-        return lena.output.RenderLaTeX(select_template=el["def"], template_dir=tdir, select_data=sd), nothing
+        return lena.output.RenderLaTeX(select_template=el["def"], template_dir=tdir, select_data=sd,
+                                       verbose=2 if el.get("verbose") else 0), nothing
     if k == "pipe":
         els, cleanups = [], []
         for st in el["stages"]:
@@ -628,15 +646,17 @@ def make_element(el, root, tdir, clock):
         mod.subprocess = _FakeSubprocess("png", clock, [], root)
         def restore():
             mod.subprocess = old
-        return lena.output.PDFToPNG(format=el["format"], overwrite=el["ow"], verbose=False), restore
+        return lena.output.PDFToPNG(format=el["format"], overwrite=el["ow"], verbose=bool(el.get("verbose"))), restore
     if k == "pdf":
         mod = lena.output.latex_to_pdf
         old = mod.subprocess
         mod.subprocess = _FakeSubprocess("pdf", clock, el["sched"], root)
         def restore():
             mod.subprocess = old
-        return lena.output.LaTeXToPDF(overwrite=el["ow"], verbose=0,
-                                      create_command=lambda tex, out, outdir, ctx: ["stub-pdflatex", tex, out]), restore
+        return lena.output.LaTeXToPDF(
+            overwrite=el["ow"], verbose=2 if el.get("verbose") else 0,
+            create_command=None if el.get("default_cmd") else
+            (lambda tex, out, outdir, ctx: ["stub-pdflatex", tex, out])), restore
     if k == "h2g":
         return lena.structures.HistToGraph(), nothing
     classes = _py_classes()
@@ -650,9 +670,15 @@ def make_element(el, root, tdir, clock):
         if el.get("default"):
             return lena.structures.MapBins(inner), nothing
         return lena.structures.MapBins(
-            inner, select_bins=[classes[c] for c in sorted({_BIN_CLASSES[b] for b in el["bins"]})]), nothing
+            inner, select_bins=[classes[c] for c in sorted({_BIN_CLASSES[b] for b in el["bins"]})],
+            drop_bins_context=el.get("drop", True)), nothing
     if k == "runif":
-        return lena.flow.RunIf(_make_selector(el["sel"]), _make_inner(el["inner"], root)), nothing
+        sel, inner = _make_selector(el["sel"]), _make_inner(el["inner"], root)
+        if el.get("init") == "selector":        # the other branches of RunIf.__init__
+            return lena.flow.RunIf(lena.flow.Selector(sel), lena.core.Sequence(inner)), nothing
+        if el.get("init") == "two":
+            return lena.flow.RunIf(sel, _Id(), inner), nothing
+        return lena.flow.RunIf(sel, inner), nothing
     if k == "mapgroup":
         return lena.flow.MapGroup(_make_inner(el["inner"], root), map_scalars=False), nothing
     raise ValueError(k)
@@ -759,7 +785,9 @@ def enc_data(o, root, text_kind=None):
             c = _canon_str(o, root)
             return {"k": "str", "v": c} if c.startswith("$R") else {"k": "text", "kind": "*"}
         if text_kind:
-            return {"k": "text", "kind": text_kind}
+            # the number of lines of a CSV text shows duplicate_last_bin and the header
+            lines = (o.count("\n") + 1 if o else 0) if text_kind == "csv" else 0
+            return {"k": "text", "kind": text_kind, "lines": lines}
         return {"k": "str", "v": _canon_str(o, root)}
     if isinstance(o, lena.structures.histogram):
         return {"k": "hist", "dim": o.dim, "shape": _hist_shape(o)}
@@ -780,7 +808,9 @@ def norm_model_data(d, pipe=False):
     """a model DATA object reduced to what enc_data shows"""
     k = d["k"]
     if k == "text":
-        return {"k": "text", "kind": "*" if pipe else d["kind"]}
+        if pipe:
+            return {"k": "text", "kind": "*"}
+        return {"k": "text", "kind": d["kind"], "lines": d["lines"] if d["kind"] == "csv" else 0}
     if k == "str" and pipe and not d["v"].startswith("$R"):
         return {"k": "text", "kind": "*"}
     if k == "graph":
@@ -864,6 +894,7 @@ def _run_once(case, specs, idxs, is_b):
     cleanup = lambda: None
     try:
         prepare_fs(case.get("fs", {}), root)
+        fs0 = snapshot(root)          # the directory before the element is even constructed
         tnames = set(el.get("templates", []))
         for st in el.get("stages", []):
             tnames.update(st.get("templates", []))
@@ -895,7 +926,9 @@ def _run_once(case, specs, idxs, is_b):
                 snaps.append(snapshot(root))
 
         err = None
-        with warnings.catch_warnings():
+        import contextlib
+        import io
+        with warnings.catch_warnings(), contextlib.redirect_stdout(io.StringIO()):   # verbose elements print
             warnings.simplefilter("ignore")
             try:
                 for o in element.run(feed()):
@@ -955,7 +988,8 @@ def _run_once(case, specs, idxs, is_b):
         for i in range(pulled):
             hi = marks[i + 1] if i + 1 < len(marks) else len(outs)
             prod_blocks.append([enc_deep(outs[p], root) for p in range(marks[i], hi)])
-        return {"blocks": blocks, "tail": tail, "err": err, "fs": snapshot(root), "b": b_report, "produced": produced,
+        return {"blocks": blocks, "tail": tail, "err": err, "fs": snapshot(root), "fs0": fs0, "b": b_report,
+                "produced": produced,
                 "deep_blocks": prod_blocks,
                 "deep_tail": [enc_deep(o, root) for o in outs[marks[len(flow)]:]] if exhausted else [],
                 "npulled": pulled, "stub_writes": sorted(_canon_str(p, root) for p in clock.stub_writes)}
@@ -1086,7 +1120,7 @@ def oracle(case, res):
         # the full-detail encodings are needed by the oracle only: drop them before the result travels to the main
         # process (memory: ~100 k cases in the thorough tier)
         for run in ("full", "a"):
-            for k in ("deep_blocks", "deep_tail", "produced"):
+            for k in ("deep_blocks", "deep_tail", "produced", "fs0"):
                 res[run].pop(k, None)
 
 
@@ -1118,6 +1152,11 @@ def _oracle(case, res):
             return f"{what}: the unselected value {v} was modified while passing"
         if rep.get("fs_untouched") is False:
             return f"{what}: the file system changed while the unselected value {v} was processed"
+    # 1b. an element that selects nothing of the flow (all values unselected, or the empty flow) leaves the
+    #     directory tree exactly as it was before the element was constructed and run
+    if not case["A"] and full["fs"] != full["fs0"]:
+        return (f"{what}: no value of the flow {case['B']} is selected, yet the directory changed from "
+                f"{full['fs0']} to {full['fs']}")
     # 2. what is produced for the selected values does not depend on the interleaved unselected ones
     if full["err"] != a["err"]:
         return (f"{what}: with the unselected values interleaved the run ends with {full['err']}, on the selected "
@@ -1174,6 +1213,13 @@ def signature(case, failure):
 
 
 def shrink(case):
+    """smaller cases that are still cases: every value of A selected, every value of B unselected"""
+    for c in _shrink(case):
+        if all(not ref_selected(c["el"], b) for b in c["B"]) and all(ref_selected(c["el"], a) for a in c["A"]):
+            yield c
+
+
+def _shrink(case):
     pat, A, B = case["pat"], case["A"], case["B"]
     # drop one value (and its pattern entry)
     for which, lst in ((True, A), (False, B)):
@@ -1248,6 +1294,29 @@ def common_b(ids, rng, allow_str=True):
     return vals
 
 
+def settings_vals(ids):
+    """values whose context carries output settings (and nothing that makes an output element select them, unless
+    the data does): duplicate_last_bin, to_csv, write, filename, dirname, fileext, filetype, template, changed"""
+    n = ids.next
+    i = lambda: {"k": "int", "v": 5000 + n()}
+    return [
+        {"d": i(), "c": {"output": {"duplicate_last_bin": False}}},
+        {"d": i(), "c": {"output": {"duplicate_last_bin": True, "to_csv": True}}},
+        {"d": _hist(ids, 1, "num"), "c": {"output": {"to_csv": False, "duplicate_last_bin": False}}},
+        {"d": _hist(ids, 2, "num"), "c": {"output": {"to_csv": False, "duplicate_last_bin": True}}},
+        {"d": _hist(ids, 3, "num"), "c": {"output": {"duplicate_last_bin": False}}},
+        {"d": i(), "c": {"output": {"filename": "leak", "dirname": "leakdir", "fileext": "lk", "changed": True,
+                                    "write": True}}},
+        {"d": {"k": "str", "v": "not written %d" % n()},
+         "c": {"output": {"write": False, "filename": "leak2", "dirname": "leak/dir", "fileext": "x", "changed": True}}},
+        {"d": {"k": "obj", "id": n()}, "c": {"output": {"template": "t2.tex", "filetype": "other", "fileext": "zz"}}},
+        {"d": {"k": "float", "v": "%d.5" % n()}, "c": {"output": {"changed": True}}},
+        {"d": {"k": "none"}, "c": {"output": {"changed": False, "filetype": "txt", "template": "missing.tex"}}},
+        {"d": _hist(ids, 1, "num"), "c": {"histogram": {"to_graph": False}, "output": {"to_csv": 0, "changed": True},
+                                          "variable": {"name": "leak"}, "group": 5}},
+    ]
+
+
 def _configs(tier):
     """(element spec, fs spec, A palette maker, B palette maker)"""
     W = lambda od, eu, ow: {"k": "write", "outdir": od, "defname": "output", "eu": eu, "ow": ow}
@@ -1261,6 +1330,8 @@ def _configs(tier):
             {"d": _hist(ids, 2, "num")},
             {"d": _hist(ids, 1, "num", [3]), "c": {"n": n()}},
             {"d": _hist(ids, 1, "num"), "c": {"output": {"to_csv": True, "duplicate_last_bin": False}}},
+            {"d": _hist(ids, 2, "num", [2, 2]), "c": {"output": {"duplicate_last_bin": True}}},
+            {"d": _hist(ids, 1, "num", [3]), "c": {"output": {"duplicate_last_bin": 0}}},
             {"d": _hist(ids, 2, "num", [1, 2]), "c": {"histogram": {"to_graph": False}, "output": 5}},
             {"d": {"k": "rows", "id": n(), "rk": "ok", "upd": False}},
             {"d": {"k": "rows", "id": n(), "rk": "ok", "upd": True}, "c": {"n": n()}},
@@ -1284,6 +1355,8 @@ def _configs(tier):
             {"d": {"k": "str", "v": "a,b\n1,%d" % n()}, "c": {"output": {"filetype": "csv"}}},
         ]
     out.append(({"k": "tocsv"}, {}, a_tocsv, b_tocsv))
+    out.append(({"k": "tocsv", "dup": False}, {}, a_tocsv, b_tocsv))
+    out.append(({"k": "tocsv", "dup": True, "header": True, "sep": ";"}, {}, a_tocsv, b_tocsv))
 
     # ---- Write
     def a_write(ids, rng):
@@ -1320,6 +1393,8 @@ def _configs(tier):
     for od, eu, ow in (("$R", False, False), ("$R/sub", False, False), ("$R", True, False), ("$R/sub", False, True),
                        ("$R/new/dir", False, False)):
         out.append((W(od, eu, ow), wfs, a_write, b_write))
+    out.append((dict(W("$R", True, False), verbose=True), wfs, a_write, b_write))
+    out.append((dict(W("$R/fresh", False, False), verbose=True), wfs, a_write, b_write))
 
     # ---- RenderLaTeX
     def a_render(ids, rng):
@@ -1343,6 +1418,8 @@ def _configs(tier):
         ]
     out.append(({"k": "render", "def": "t1.tex", "templates": ["t1.tex", "t2.tex"], "sel": None}, {}, a_render, b_render))
     out.append(({"k": "render", "def": "", "templates": ["t1.tex", "t2.tex"], "sel": None}, {}, a_render, b_render))
+    out.append(({"k": "render", "def": "t2.tex", "templates": ["t1.tex", "t2.tex"], "sel": None, "verbose": True}, {},
+                a_render, b_render))
 
     def a_render_int(ids, rng):
         n = ids.next
@@ -1384,6 +1461,7 @@ def _configs(tier):
         ]
     out.append(({"k": "pdf", "ow": False, "sched": None}, pfs, a_pdf, b_pdf))
     out.append(({"k": "pdf", "ow": True, "sched": None}, pfs, a_pdf, b_pdf))
+    out.append(({"k": "pdf", "ow": False, "sched": None, "verbose": True, "default_cmd": True}, pfs, a_pdf, b_pdf))
 
     # ---- PDFToPNG
     gfs = {"files": [["p1.pdf", "pdf one", 2000], ["p2.pdf", "pdf two", 2000], ["p2.png", "old png", 2500],
@@ -1407,6 +1485,7 @@ def _configs(tier):
         ]
     out.append(({"k": "png", "format": "png", "ow": False}, gfs, a_png, b_png))
     out.append(({"k": "png", "format": "jpeg", "ow": True}, gfs, a_png, b_png))
+    out.append(({"k": "png", "format": "png", "ow": False, "verbose": True}, gfs, a_png, b_png))
 
     # ---- HistToGraph
     def a_h2g(ids, rng):
@@ -1465,6 +1544,8 @@ def _configs(tier):
     for kinds, inner in ((["vec"], "id"), (["hist"], "dup"), (["num", "pair"], "dupfirst"), (["hist", "vec"], "ctx"),
                          (["vec"], "yieldraise")):
         out.append(({"k": "mapbins", "bins": kinds, "inner": inner}, {}, hists(kinds), b_bins(kinds)))
+    for kinds, inner in ((["num", "pair"], "id"), (["hist", "vec"], "ctx")):
+        out.append(({"k": "mapbins", "bins": kinds, "inner": inner, "drop": False}, {}, hists(kinds), b_bins(kinds)))
 
     # ---- RunIf
     def split_by(sel, extra_a):
@@ -1489,6 +1570,10 @@ def _configs(tier):
         out.append(({"k": "runif", "sel": s, "inner": i}, {}, a, b))
     a, b = split_by({"cls": "str"}, extra_runif)
     out.append(({"k": "runif", "sel": {"cls": "str"}, "inner": {"write": W("$R", False, False)}}, wfs, a, b))
+    out.append(({"k": "runif", "sel": {"cls": "str"}, "inner": {"write": W("$R/fresh", False, False)}}, wfs, a, b))
+    a, b = split_by({"cls": "int"}, extra_runif)
+    out.append(({"k": "runif", "sel": {"cls": "int"}, "inner": "dupeven", "init": "selector"}, {}, a, b))
+    out.append(({"k": "runif", "sel": {"cls": "int"}, "inner": "number", "init": "two"}, {}, a, b))
 
     # ---- MapGroup(map_scalars=False)
     def a_group(ids, rng):
@@ -1499,6 +1584,15 @@ def _configs(tier):
             {"d": {"k": "seq", "tuple": False, "items": [i()]}, "c": {"group": [{"g": n()}], "n": n()}},
             {"d": {"k": "seq", "tuple": True, "items": [i(), _hist(ids, 1, "num"), i()]},
              "c": {"group": [{}, {"x": 1}, {"x": 1}], "foo": "bar"}},
+            {"d": {"k": "seq", "tuple": False, "items": [i(), i()]},
+             "c": {"group": [{"output": {"changed": True}}, {"g": 2}], "n": n()}},
+            {"d": {"k": "seq", "tuple": False, "items": [i(), i()]},
+             "c": {"group": [{"output": {"changed": False}}, {"output": {"changed": 0}}], "output": {"changed": None}}},
+            {"d": {"k": "seq", "tuple": True, "items": [i(), i()]},
+             "c": {"group": [{"output": {"changed": None}}, {}], "output": {"changed": False, "filetype": "pdf"}}},
+            {"d": {"k": "seq", "tuple": False, "items": [i()]}, "c": {"group": [{"output": "changed"}], "output": 5}},
+            {"_e": 1, "d": {"k": "seq", "tuple": False, "items": [i(), i()]},
+             "c": {"group": [{"output": {"changed": [1]}}, {}]}},                                       # TypeError
             {"_e": 1, "d": {"k": "seq", "tuple": False, "items": [i(), i()]}, "c": {"group": [{"g": 1}]}},          # LenaRuntimeError
             {"_e": 1, "d": {"k": "seq", "tuple": False, "items": [i(), i()]}, "c": {"group": [{"g": 1}, 5]}},       # LenaTypeError
             {"_e": 1, "d": {"k": "seq", "tuple": False, "items": []}, "c": {"group": []}},                         # IndexError
@@ -1515,7 +1609,7 @@ def _configs(tier):
             {"d": {"k": "seq", "tuple": False, "items": [i(), i()]}, "c": {"output": {"group": [{}, {}]}}},
             {"d": {"k": "none"}, "c": {"group": None}},
         ]
-    for inner in ("id", "dup", "drop", "number", "count", "raise", "yieldraise", "last"):
+    for inner in ("id", "dup", "drop", "number", "count", "raise", "yieldraise", "last", "dupeven"):
         out.append(({"k": "mapgroup", "inner": inner}, {}, a_group, b_group))
 
     # ---- real converter processes (oracle only): `cp` for pdflatex, a PATH stub for pdftoppm
@@ -1544,6 +1638,8 @@ def _configs(tier):
         ([{"k": "mapbins", "bins": allk, "default": True, "inner": "dup"}, {"k": "iterbins", "bins": ["hist"], "default": True},
           {"k": "tocsv"}], [hists(["hist", "num", "vec"]), b_tocsv]),
         ([W("$R", False, False), W("$R", False, False)], [a_write, b_write]),
+        ([{"k": "mapbins", "bins": ["num", "pair"], "inner": "id", "drop": False},
+          {"k": "iterbins", "bins": ["num", "pair"]}], [hists(["num", "pair", "vec"])]),
         ([{"k": "runif", "sel": {"cls": "int"}, "inner": "number"}, {"k": "mapgroup", "inner": "id"}],
          [extra_runif, a_group, b_group]),
         ([{"k": "runif", "sel": {"cls": "histogram"}, "inner": "id"}, {"k": "h2g"}, {"k": "tocsv"}],
@@ -1552,7 +1648,14 @@ def _configs(tier):
     for stages, makers in pipes:
         el, a, b = pipe(stages, makers)
         out.append((el, wfs if any(st["k"] == "write" for st in stages) else {}, a, b))
-    return out
+
+    # ---- every B palette also holds unselected values whose context carries the settings the element reads
+    #      for the values it does select (they must not leak into what is made for the selected ones)
+    def with_settings(el, mk_b):
+        def b(ids, rng):
+            return mk_b(ids, rng) + [v for v in settings_vals(ids) if not ref_selected(el, v)]
+        return b
+    return [(el, fs, mk_a, with_settings(el, mk_b)) for el, fs, mk_a, mk_b in out]
 
 
 def _draw(rng, palette, n):
